@@ -210,7 +210,7 @@ theorem map_core {s v N q : Fp} (hq : q ^ 2 = -d - 1) (hv : v ≠ 0)
     N * q ≠ 0 ∧ 1 + s ^ 2 ≠ 0 ∧ onCurve d (2 * s * v / (N * q)) ((1 - s ^ 2) / (1 + s ^ 2)) := by
   have hq0 : q ≠ 0 := by
     intro h; rw [h] at hq
-    apply d_ne_neg_one; linear_combination -hq
+    apply d_ne_neg_one; linear_combination hq
   have hN : N ≠ 0 := by
     intro h; rw [h] at hK
     have : v ^ 2 * ((1 + s ^ 2) ^ 2 + d * (1 - s ^ 2) ^ 2) = 0 := by linear_combination -hK
@@ -225,8 +225,8 @@ theorem map_core {s v N q : Fp} (hq : q ^ 2 = -d - 1) (hv : v ≠ 0)
     have h2 := Dalek.FieldFacts.two_ne_zero_p
     have hs2 : s ^ 2 = -1 := by linear_combination h
     field_simp
-    linear_combination (-1 : Fp) * hK + (N ^ 2) * hq + (N ^ 2 * q ^ 2) * hi
-      + (v ^ 2 * (s ^ 2 + 1 + d * (s ^ 2 - 3))) * hs2
+    linear_combination (-(N ^ 2 * q ^ 2)) * hi + (N ^ 2) * hq - hK
+      - (v ^ 2 * ((1 + s ^ 2) - d * (3 - s ^ 2))) * hs2
   refine ⟨mul_ne_zero hN hq0, hw3, ?_⟩
   apply onCurve_div (mul_ne_zero hN hq0) hw3
   linear_combination (4 * s ^ 2) * hK + (-4 * s ^ 2 * N ^ 2) * hq
@@ -241,5 +241,114 @@ theorem map_identity_nonsq (r : Fp) :
     (r * (r - 1) * (d - 1) ^ 2 - (-1 - d * r) * (r + d)) ^ 2 * (d + 1) =
       ((-1 - d * r) * (r + d) + r * ((r + 1) * (1 - d ^ 2))) ^ 2 +
         d * ((-1 - d * r) * (r + d) - r * ((r + 1) * (1 - d ^ 2))) ^ 2 := by ring
+
+theorem fpNegAbs_sq (x : Fp) : fpNegAbs x ^ 2 = x ^ 2 := by
+  rw [fpNegAbs_eq, neg_sq, fpAbs_sq]
+
+theorem fpNegAbs_zero : fpNegAbs (0 : Fp) = 0 := by
+  rw [fpNegAbs_eq, fpAbs_zero, neg_zero]
+
+/-- **Elligator lands on the curve**: for every `t`, the completed point `((w0 : w1), (w2 : w3))` computed by
+`elligator_ristretto_flavor` / RFC 9496 MAP denotes a point of the Ed25519 curve (both denominators are nonzero). -/
+theorem map_valid (t : Fp) : ∃ Q : Ed, RepCompleted Q (mapW0 t) (mapW2 t) (mapW1 t) (mapW3 t) := by
+  have hc6 : zmodOps.const 6 = 1 - d ^ 2 := const_ONE_MINUS_EDWARDS_D_SQUARED
+  have hc7 : zmodOps.const 7 = (d - 1) ^ 2 := const_EDWARDS_D_MINUS_ONE_SQUARED
+  have hq : sqrtADm1 ^ 2 = -d - 1 := const_SQRT_AD_MINUS_ONE_sq
+  have hd1 : d - 1 ≠ 0 := sub_ne_zero.2 d_ne_one
+  have hd1' : d + 1 ≠ 0 := fun h => d_ne_neg_one (by linear_combination h)
+  suffices h : mapW1 t ≠ 0 ∧ mapW3 t ≠ 0 ∧ onCurve d (mapW0 t / mapW1 t) (mapW2 t / mapW3 t) by
+    obtain ⟨h1, h3, hc⟩ := h
+    exact ⟨⟨_, _, hc⟩, h1, h3, rfl, rfl⟩
+  have hW0 : mapW0 t = 2 * mapS t * mapV t := by unfold mapW0; ring
+  have hUdef : mapU t = (mapR t + 1) * (1 - d ^ 2) := by unfold mapU; rw [hc6]
+  have hVdef : mapV t = (-1 - d * mapR t) * (mapR t + d) := rfl
+  have hNdef : mapN t = mapC t * (mapR t - 1) * (d - 1) ^ 2 - mapV t := by unfold mapN; rw [hc7]
+  have hRdef : mapR t = sqrtM1 * t ^ 2 := rfl
+  have hSq : mapSq t = sqrtRatioFp (mapU t) (mapV t) := rfl
+  rw [hW0]
+  unfold mapW1 mapW2 mapW3
+  -- `u = 0` forces `v ≠ 0`
+  have hu_v : mapU t = 0 → mapV t ≠ 0 := by
+    intro hu hv
+    rw [hUdef] at hu; rw [hVdef] at hv
+    have hr : mapR t = -1 := by
+      rcases mul_eq_zero.1 hu with h | h
+      · linear_combination h
+      · exfalso
+        have : (1 - d) * (1 + d) = 0 := by linear_combination h
+        rcases mul_eq_zero.1 this with h' | h'
+        · exact hd1 (by linear_combination -h')
+        · exact hd1' (by linear_combination h')
+    rw [hr] at hv
+    have : (d - 1) ^ 2 = 0 := by linear_combination hv
+    exact hd1 ((pow_eq_zero_iff two_ne_zero).1 this)
+  rcases sqrtRatioFp_flag (mapU t) (mapV t) with h0 | h1
+  · -- not a square: `s = -|s0 t|`, `c = r`
+    have hflag : ¬ (mapSq t).1 ≠ 0 := by rw [hSq, h0]; exact not_not.2 rfl
+    have hS : mapS t = fpNegAbs ((mapSq t).2 * t) := by unfold mapS; rw [if_neg hflag]
+    have hC : mapC t = mapR t := by unfold mapC; rw [if_neg hflag]
+    have hnot : ¬ (mapU t = 0 ∨ (mapV t ≠ 0 ∧ IsSquare (mapU t / mapV t))) := by
+      rw [← sqrtRatioFp_ok_iff, h0]; exact zero_ne_one
+    have hu : mapU t ≠ 0 := fun h => hnot (Or.inl h)
+    by_cases hv : mapV t = 0
+    · -- `v = 0`: `s = 0`, the image is the identity
+      have hs0 : mapS t = 0 := by
+        rw [hS, hSq, (sqrtRatioFp_spec _ _).2.1 hv hu, zero_mul]; exact fpNegAbs_zero
+      have hr0 : mapR t ≠ 0 := by
+        intro h; rw [hVdef, h] at hv
+        exact Dalek.FieldFacts.d_ne_zero (by linear_combination -hv)
+      have hr1 : mapR t - 1 ≠ 0 := by
+        intro h
+        have h' : mapR t = 1 := by linear_combination h
+        rw [hVdef, h'] at hv
+        have : (d + 1) ^ 2 = 0 := by linear_combination -hv
+        exact hd1' ((pow_eq_zero_iff two_ne_zero).1 this)
+      have hN : mapN t ≠ 0 := by
+        rw [hNdef, hC, hv, sub_zero]
+        exact mul_ne_zero (mul_ne_zero hr0 hr1) (pow_ne_zero _ hd1)
+      have hq0 : sqrtADm1 ≠ 0 := by
+        intro h; rw [h] at hq; exact hd1' (by linear_combination hq)
+      rw [hs0]
+      refine ⟨mul_ne_zero hN hq0, by rw [zero_pow two_ne_zero, add_zero]; exact one_ne_zero, ?_⟩
+      unfold Dalek.Edwards.onCurve
+      rw [mul_zero, zero_mul, zero_div]; ring
+    · have hns : ¬ IsSquare (mapU t / mapV t) := fun h => hnot (Or.inr ⟨hv, h⟩)
+      have h4 := ((sqrtRatioFp_spec (mapU t) (mapV t)).2.2.2 hv hns).2
+      rw [← hSq] at h4
+      have hs : mapS t ^ 2 * mapV t = mapR t * mapU t := by
+        rw [hS, fpNegAbs_sq, hRdef]; linear_combination (t ^ 2) * h4
+      have hK : mapN t ^ 2 * (d + 1) =
+          mapV t ^ 2 * ((1 + mapS t ^ 2) ^ 2 + d * (1 - mapS t ^ 2) ^ 2) := by
+        have hid := map_identity_nonsq (mapR t)
+        rw [hNdef, hC]
+        rw [hUdef] at hs
+        rw [hVdef] at hs ⊢
+        generalize mapR t = r at hs hid ⊢
+        generalize mapS t = s at hs ⊢
+        linear_combination hid - ((2 * ((-1 - d * r) * (r + d)) + s ^ 2 * ((-1 - d * r) * (r + d))
+          + r * ((r + 1) * (1 - d ^ 2))) - d * (2 * ((-1 - d * r) * (r + d)) - s ^ 2 * ((-1 - d * r) * (r + d))
+          - r * ((r + 1) * (1 - d ^ 2)))) * hs
+      exact map_core hq hv hK
+  · -- a square: `s = s0`, `c = -1`
+    have hflag : (mapSq t).1 ≠ 0 := by rw [hSq, h1]; exact one_ne_zero
+    have hS : mapS t = (mapSq t).2 := by unfold mapS; rw [if_pos hflag]
+    have hC : mapC t = -1 := by unfold mapC; rw [if_pos hflag]
+    have hs : mapS t ^ 2 * mapV t = mapU t := by rw [hS, hSq]; exact sqrtRatioFp_ok h1
+    have hv : mapV t ≠ 0 := by
+      intro hv
+      refine hu_v ?_ hv
+      rw [← hs, hv, mul_zero]
+    have hK : mapN t ^ 2 * (d + 1) =
+        mapV t ^ 2 * ((1 + mapS t ^ 2) ^ 2 + d * (1 - mapS t ^ 2) ^ 2) := by
+      have hid := map_identity_sq (mapR t)
+      rw [hNdef, hC]
+      rw [hUdef] at hs
+      rw [hVdef] at hs ⊢
+      generalize mapR t = r at hs hid ⊢
+      generalize mapS t = s at hs ⊢
+      linear_combination hid - ((2 * ((-1 - d * r) * (r + d)) + s ^ 2 * ((-1 - d * r) * (r + d))
+        + (r + 1) * (1 - d ^ 2)) - d * (2 * ((-1 - d * r) * (r + d)) - s ^ 2 * ((-1 - d * r) * (r + d))
+        - (r + 1) * (1 - d ^ 2))) * hs
+    exact map_core hq hv hK
 
 end Dalek.Proofs.Ris
